@@ -739,10 +739,10 @@ def assign_model(ctx):
             return list(windows)
         if d.endswith('.has_tag'):
             a = [ev.ev(x, env) for x in call.args]
-            return a[0] == world['hits']
+            return a[0] == world['hits'] or (world['hits'] == 'XA+NH' and a[0] in ('XA', 'NH'))
         if d.endswith('.get_tag'):
             a = [ev.ev(x, env) for x in call.args]
-            if a[0] == world['hits']:
+            if a[0] == world['hits'] or (world['hits'] == 'XA+NH' and a[0] in ('XA', 'NH')):
                 return {'XA': 'h1;h2;h3', 'NH': '2'}[a[0]]
             raise Raised('KeyError', a[0])
         return NotImplemented
@@ -750,7 +750,7 @@ def assign_model(ctx):
     world = {'hits': None}
     try:
         for binv, byv, tags, paired, nodiv, keep, mate, hits, join, mate_unmapped in itertools.product((None, 1000), (None, 'GN', 'ZZ', 'NG', 'EX'), (['DS', 'GN'], ['GN', 'DS'], ['DS'], ['GN', 'ZZ', 'DS'], ['NG', 'DS'], ['DS', 'EX']), (False, True), (False, True), (False, True),
-                                                                                              (None, 'r1only', 'r2only'), (None, 'XA', 'NH'), (True, False), (False, True)):
+                                                                                              (None, 'r1only', 'r2only'), (None, 'XA', 'NH', 'XA+NH'), (True, False), (False, True)):        # both tags present: the alternative-hit list wins
             if byv is not None and byv not in tags:
                 continue
             if not join and (binv is not None or keep or mate or hits or (byv is not None and len(tags) < 2)):
@@ -781,7 +781,7 @@ def assign_model(ctx):
             feats = [vals[t] for t in tags if not (binv is not None and t == 'DS') and not (byv is not None and t == byv)]
             w0 = 1 if mate else (0.5 if paired and not mate_unmapped and not nodiv else 1)
             if hits:
-                w0 = w0 / (3 if hits == 'XA' else 2)
+                w0 = w0 / (3 if hits in ('XA', 'XA+NH') else 2)
             w = float(vals[byv]) if byv is not None else w0
             want = {}
             if not join:
